@@ -169,7 +169,7 @@ func (s *capStatser) WithTags(tags gostatsd.Tags) stats.Statser { return s }
 // ---------------------------------------------------------------------------------------
 // running one case
 
-const stepTimeout = 20 * time.Second
+const stepTimeout = 10 * time.Second
 
 type runner struct {
 	in      chan []*statsd.Datagram
@@ -502,6 +502,17 @@ func runOne(em *hlib.Emitter, in input) {
 	r.st.mu.Unlock()
 	c.Nontrivial = maxLines >= 2 && accepted && (nChanged > 0 || nEmpty > 0 || r.st.bad > 0)
 	em.Emit(c)
+	if !alive && r.panicked == "" {
+		// the parser goroutine is wedged (it cannot be cancelled from outside and keeps a core
+		// busy): report the case and stop; the driver sees the monitor hit of this case
+		select {
+		case <-r.done:
+		default:
+			em.Close()
+			fmt.Fprintln(os.Stderr, "c05: parser goroutine wedged; stopping after this case")
+			os.Exit(0)
+		}
+	}
 }
 
 func firstDiff(a, b string) string {
@@ -566,10 +577,25 @@ func edgeLine(r *hlib.Rand) string {
 var smallNames = []string{"g", "a.b", "x", "srv/req", "lat ms"}
 var smallTags = []string{"", "a:b", "c:d,a:b", "a:b,c:d", "host:h1", "host:h1,a:b", "a:b,host:h2", "host:,x", "host:h1,host:h2", "hostx:1", "host", "k"}
 
-// lines that hit the same few series again and again (gauge order, counter sums, timer order)
-func seriesLine(r *hlib.Rand) string {
-	name := hlib.Pick(r, smallNames)
-	ty := hlib.Pick(r, []string{"g", "g", "g", "c", "ms", "s", "h"})
+// lines that hit the same few series again and again (gauge order, counter sums, timer order);
+// the case draws a small universe so that one datagram sets the same gauge several times
+type universe struct{ names, tags, types []string }
+
+func newUniverse(r *hlib.Rand) *universe {
+	u := &universe{}
+	for i, n := 0, r.Range(1, 2); i < n; i++ {
+		u.names = append(u.names, hlib.Pick(r, smallNames))
+	}
+	for i, n := 0, r.Range(1, 3); i < n; i++ {
+		u.tags = append(u.tags, hlib.Pick(r, smallTags))
+	}
+	u.types = hlib.Pick(r, [][]string{{"g"}, {"g", "g", "g", "c"}, {"g", "g", "c", "ms", "s", "h"}, {"c", "ms", "s"}})
+	return u
+}
+
+func seriesLine(r *hlib.Rand, u *universe) string {
+	name := hlib.Pick(r, u.names)
+	ty := hlib.Pick(r, u.types)
 	val := strconv.Itoa(r.Range(-20, 200))
 	if r.Chance(1, 4) {
 		val = hlib.Pick(r, []string{"0.5", "1e2", "-0", "inf", "2.25", "+7"})
@@ -578,18 +604,18 @@ func seriesLine(r *hlib.Rand) string {
 	if r.Chance(1, 4) && ty != "s" && ty != "g" {
 		s += "|@" + hlib.Pick(r, []string{"0.1", "0.5", "0.25", "1", "0.01"})
 	}
-	if t := hlib.Pick(r, smallTags); t != "" || r.Chance(1, 3) {
+	if t := hlib.Pick(r, u.tags); t != "" || r.Chance(1, 3) {
 		s += "|#" + t
 	}
 	return s
 }
 
-func genLine(r *hlib.Rand, stream string) string {
+func genLine(r *hlib.Rand, stream string, u *universe) string {
 	switch stream {
 	case "series":
 		switch k := r.Intn(10); {
 		case k < 7:
-			return seriesLine(r)
+			return seriesLine(r, u)
 		case k < 8:
 			return edgeLine(r)
 		case k < 9:
@@ -610,7 +636,7 @@ func genLine(r *hlib.Rand, stream string) string {
 		case k < 9:
 			return ""
 		default:
-			return seriesLine(r)
+			return seriesLine(r, u)
 		}
 	default: // mixed
 		switch k := r.Intn(20); {
@@ -626,7 +652,7 @@ func genLine(r *hlib.Rand, stream string) string {
 		case k < 16:
 			return ""
 		case k < 18:
-			return seriesLine(r)
+			return seriesLine(r, u)
 		case k < 19:
 			return lexgen.Mutate(r, lexgen.MetricLine(r), true)
 		default:
@@ -638,6 +664,7 @@ func genLine(r *hlib.Rand, stream string) string {
 func genCase(r *hlib.Rand, tier string, idx int) input {
 	stream := []string{"mixed", "mixed", "series", "hostile", "mixed", "series"}[idx%6]
 	in := input{NS: hlib.Pick(r, namespaces), IgnoreHost: r.Chance(2, 5), EstTags: r.Intn(6), Scramble: r.U64(), Stream: stream}
+	u := newUniverse(r)
 	nb := []int{1, 1, 1, 2, 3}[r.Intn(5)]
 	maxLines := 7
 	if tier == "thorough" && r.Chance(1, 10) {
@@ -665,7 +692,7 @@ func genCase(r *hlib.Rand, tier string, idx int) input {
 				continue
 			}
 			for k := 0; k < nl; k++ {
-				l := lineIn{B: lexgen.ToInts(genLine(r, stream)), NL: true}
+				l := lineIn{B: lexgen.ToInts(genLine(r, stream, u)), NL: true}
 				if k == nl-1 {
 					l.NL = r.Bool()
 					l.End, l.IP, l.TS, l.Off, l.Slack = 1, ip, ts, off, slack
